@@ -46,12 +46,19 @@ static const cfg_t cfgs[] = {
       0 },
     { "L3 full, malloc 40008 / D / user off 24, pools 0/1/0", 0, 3, A_FULL,
       { 0, 0, 1, 0 }, { NONE, MS(40008), D, US(24, 32768) }, INITS6, 0 },
+    { "L4 full, user off 8 / malloc 32768+64 / D, pools 1/0/1", 0, 4, A_FULL,
+      { 0, 1, 0, 1 }, { NONE, US(8, 32768 + 8), MS(32768 + 64), D },
+      "SYF,ATS,YFT", 0 },
     { "L2 full, user stacks at every 8-byte offset, sizes 0/8 mod 16", 0, 2,
       A_FULL, { 0, 0, 1, 1 },
       { NONE, US(0, 32768), US(16, 32768 + 8), US(40, 49152) }, INITS6, 1 },
 };
 
-static void scenario(int cfg) { c02_scenario(cfgs, cfg); }
+static void scenario(int cfg)
+{
+    check_c11_state = 0; /* reported states / pool counts are C11's business */
+    c02_scenario(cfgs, cfg);
+}
 static const char *cfg_name(int i) { return cfgs[i].name; }
 static int cfg_quick(int i) { return cfgs[i].quick; }
 
